@@ -772,9 +772,15 @@ def r10_settings_describe_the_data(ctx):
                         vals = vs
                 forwards = False
                 for v in vals:
+                    rv_ = R.resolve(v)
                     t = R.text(v)
-                    if t == f"kwargs['{key}']" or t.startswith(
-                            f"kwargs.get('{key}'") or t.startswith(
+                    if isinstance(rv_, ast.BoolOp):
+                        # `given or remembered`: an explicitly given empty
+                        # value is replaced by the remembered one
+                        continue
+                    if t == f"kwargs['{key}']" or (isinstance(
+                            rv_, ast.Call) and t.startswith(
+                            f"kwargs.get('{key}'")) or t.startswith(
                             f"kwargs['{key}'] if '{key}' in kwargs"):
                         forwards = True
                 if implied and forwards:
